@@ -142,3 +142,105 @@ for fam, fdir in FAMILIES:
             contract='__CPROVER_assigns(i)\n'
                      '__CPROVER_loop_invariant(i <= this_->compositions.n && (g_listed ==> i <= g_first))\n'
                      '__CPROVER_decreases(this_->compositions.n - i)')}))
+
+
+# ----------------------------------------------------------------------------- native replay oracle
+import math, random, json
+sys.path.insert(0, os.path.join(os.path.dirname(os.path.abspath(__file__)), '..', 'lib'))
+G, TP, ALPHA, CP = 10.0, 1600.0, 3.5e-5, 1250.0
+FEATURE_NAME = {'continental_plate': 'continental plate', 'oceanic_plate': 'oceanic plate', 'mantle_layer': 'mantle layer'}
+
+
+def random_world(rnd, only_family=None):
+    feats = []
+    for k in range(rnd.randint(2, 4)):
+        fam = only_family if (only_family and k == 1) else rnd.choice(list(FEATURE_NAME))
+        x0 = rnd.choice([-1e6, -1e6, 0.0, 200e3])
+        x1 = x0 + rnd.choice([500e3, 2e6])
+        fmin = rnd.choice([0.0, 0.0, 50e3])
+        fmax = fmin + rnd.choice([100e3, 300e3])
+        tm, cm = [], []
+        for _ in range(rnd.randint(0, 2)):
+            tm.append({"model": "uniform", "min depth": rnd.choice([0.0, 40e3]), "max depth": rnd.choice([120e3, 1000e3]),
+                       "temperature": rnd.choice([300.0, 777.5, 1500.0]), "operation": rnd.choice(["replace", "add", "subtract"])})
+        for _ in range(rnd.randint(0, 3)):
+            comps = rnd.sample([0, 1, 2, 3], rnd.randint(1, 2))
+            cm.append({"model": "uniform", "min depth": rnd.choice([0.0, 40e3]), "max depth": rnd.choice([120e3, 1000e3]),
+                       "compositions": comps, "fractions": [rnd.choice([0.25, 0.5, 1.0]) for _ in comps],
+                       "operation": rnd.choice(["replace", "replace defined only", "add", "subtract"])})
+        f = {"model": FEATURE_NAME[fam], "name": "F%d" % k, "min depth": fmin, "max depth": fmax,
+             "coordinates": [[x0, -1e6], [x1, -1e6], [x1, 1e6], [x0, 1e6]]}
+        if tm:
+            f["temperature models"] = tm
+        if cm:
+            f["composition models"] = cm
+        feats.append(f)
+    return feats
+
+
+def reference(feats, x, y, depth, ncomp=4):
+    """the property statement, evaluated independently: background, then every covering feature in file order"""
+    T = TP * math.exp(ALPHA * G * depth / CP)
+    comp = [0.0] * ncomp
+    tag = -1
+    tags = []          # a feature's tag defaults to its model name; tags are numbered by first appearance in the file
+    for f in feats:
+        if f.get("tag", f["model"]) not in tags:
+            tags.append(f.get("tag", f["model"]))
+    for k, f in enumerate(feats):
+        (x0, y0), (x1, _), (_, y1) = f["coordinates"][0], f["coordinates"][1], f["coordinates"][2]
+        if not (x0 <= x <= x1 and y0 <= y <= y1 and f["min depth"] <= depth <= f["max depth"]):
+            continue
+        tag = tags.index(f.get("tag", f["model"]))
+        for m in f.get("temperature models", []):
+            if m["min depth"] <= depth <= m["max depth"]:
+                T = m["temperature"] if m["operation"] == "replace" else T + m["temperature"] if m["operation"] == "add" else T - m["temperature"]
+        for c in range(ncomp):
+            v = comp[c]
+            for m in f.get("composition models", []):
+                if not (m["min depth"] <= depth <= m["max depth"]):
+                    continue
+                if c in m["compositions"]:
+                    fr = m["fractions"][m["compositions"].index(c)]
+                    v = fr if m["operation"].startswith("replace") else v + fr if m["operation"] == "add" else v - fr
+                elif m["operation"] == "replace":
+                    v = 0.0
+            comp[c] = v
+    return T, comp, tag
+
+
+def native_oracle(witness, work, search_seed=None):
+    import oracle
+    rnd = random.Random(search_seed if search_seed is not None else 1)
+    nworlds = 25
+    for wi in range(nworlds):
+        feats = random_world(rnd, witness.get('family'))
+        text = json.dumps({"version": "1.1", "coordinate system": {"model": "cartesian"}, "gravity model": {"model": "uniform", "magnitude": G},
+                           "potential mantle temperature": TP, "thermal expansion coefficient": ALPHA, "specific heat": CP, "features": feats})
+        q = oracle.Q(text, work)
+        try:
+            if q.construct_error:
+                continue
+            for _ in range(12):
+                x, y = rnd.choice([-500e3, 100e3, 300e3, 900e3, 1500e3]), rnd.uniform(-9e5, 9e5)
+                d = rnd.choice([0.0, 20e3, 45e3, 60e3, 100e3, 130e3, 250e3, 500e3])
+                st, v = q.ask('p3 %r %r %r %r 1,0,0 2,0,0 2,1,0 2,2,0 2,3,0 4,0,0' % (x, y, 3000e3 - d, d))
+                if st != 'OK':
+                    continue
+                got = [float.fromhex(t) for t in v]
+                T, comp, tag = reference(feats, x, y, d)
+                exp = [T] + comp + [float(tag)]
+                bad = [i for i, (a, b) in enumerate(zip(got, exp)) if abs(a - b) > 1e-9 * max(1.0, abs(b))]
+                if bad:
+                    names = ['temperature', 'composition 0', 'composition 1', 'composition 2', 'composition 3', 'tag']
+                    return dict(status='violated', world=feats, point=[x, y, d],
+                                detail='at (x,y,depth)=(%r,%r,%r) the library returns %s but painting the covering features in file order gives %s (differs in: %s)'
+                                       % (x, y, d, got, exp, ', '.join(names[i] for i in bad)))
+        finally:
+            q.close()
+    return dict(status='holds', detail='%d random worlds x 12 points agree with the file-order painting reference' % nworlds)
+
+
+def witness_from_trace(unit, failure, seed):
+    fam = unit['name'].split('_C_')[0].split('_properties')[0]
+    return dict(family=fam if fam in FEATURE_NAME else None)
